@@ -568,6 +568,9 @@ class Interp:
             v = self.eval(s.value.value, f) if s.value.value is not None else None
             f.yields.append(v)
             return
+        if isinstance(s.value, ast.YieldFrom):
+            self.ex_YieldFrom(s.value, f)
+            return
         self.eval(s.value, f)
 
     def st_Return(self, s, f):
@@ -1243,6 +1246,10 @@ class Interp:
 
     def ex_Yield(self, e, f):
         f.yields.append(self.eval(e.value, f) if e.value is not None else None)
+        return None
+
+    def ex_YieldFrom(self, e, f):
+        f.yields.extend(self.iterate(self.eval(e.value, f)))
         return None
 
     def ex_NamedExpr(self, e, f):
